@@ -267,7 +267,9 @@ TExit ==
          \* a deviation carries a known finding's name if the invocation shows its signature: the started set is the one the
          \* finding predicts, or an ordering / idle violation with its signature was already seen in this invocation
          kf == IF kfTouch THEN "KF-FAIL-TOUCHED" ELSE IF kfSkip THEN "KF-DEPS-SKIPPED" ELSE iv.kfSeen
-         v05f == IF exact /\ iv.kfT # {} /\ ~(iv.kfT \subseteq startedSet) /\ (ok \/ ~(startedSet \subseteq iv.exp) \/ kfTouch)
+         \* (also: a successful build that leaves out a statement which failed before and has not succeeded since)
+         v05f == IF exact /\ ((iv.kfT # {} /\ ~(iv.kfT \subseteq startedSet) /\ (ok \/ ~(startedSet \subseteq iv.exp) \/ kfTouch))
+                              \/ (ok /\ (F \cap iv.exp) \ startedSet # {}))
                  THEN {V("C05", "a command that failed is not retried by the next build", kf)} ELSE {}
          v03 == IF exact /\ dev03
                 THEN {V("C03", IF startedSet \subseteq iv.exp THEN "a command that had to run was not run"
